@@ -23,15 +23,15 @@ THEOREMS = [
     'Pyiga.Props.C09.coo_index_lists', 'Pyiga.Props.C09.coo_from_kv_index_lists',
     'Pyiga.Props.C09.biform_1d', 'Pyiga.Props.C09.biform_1d_asym', 'Pyiga.Props.C09.biform_1d_asym_needs_cell_hyp',
     'Pyiga.Props.C09.kron_path_mass_2d', 'Pyiga.Props.C09.kron_path_stiffness_2d',
-    'Pyiga.Props.C09.kron_path_mass_3d',
+    'Pyiga.Props.C09.kron_path_mass_3d', 'Pyiga.Props.C09.kron_path_stiffness_3d',
     'Pyiga.Props.C09.gauss_weights_sum', 'Pyiga.Props.C09.gauss_nodes_inside',
     'Pyiga.Props.C09.total_mass', 'Pyiga.Props.C09.stiffness_row_sum_zero', 'Pyiga.Props.C09.stiffness_col_sum_zero',
     'Pyiga.Props.C09.gram_symmetric', 'Pyiga.Props.C09.gram_quadratic_form', 'Pyiga.Props.C09.gram_psd',
     'Pyiga.Props.C09.kron_symmetric', 'Pyiga.Props.C09.kron_total',
-    'Pyiga.Props.C09.load_vector_spec', 'Pyiga.Props.C09.integrate_spec',
+    'Pyiga.Props.C09.load_vector_spec', 'Pyiga.Props.C09.integrate_spec', 'Pyiga.Props.C09.integrate_spec_2d',
     'Pyiga.Props.C09.det2_eq_matrix_det', 'Pyiga.Props.C09.det3_eq_matrix_det',
 ]
-MODULES = ['Pyiga.Model.Galerkin', 'Pyiga.Proofs.Galerkin', 'Pyiga.Proofs.GalerkinAsm', 'Pyiga.Proofs.GalerkinKron', 'Pyiga.Props.C09']
+MODULES = ['Pyiga.Model.Galerkin', 'Pyiga.Proofs.Galerkin', 'Pyiga.Proofs.GalerkinAsm', 'Pyiga.Proofs.GalerkinKron', 'Pyiga.Proofs.GalerkinKron3', 'Pyiga.Props.C09']
 U = F(1, 2 ** 53)
 
 
@@ -307,11 +307,12 @@ def run(ctx):
         raise InfraError('regenerated Pyiga.Gen.DetInvDefs does not build:\n' + log[-2000:])
     ok_gen, log = ctx.lake_build(['Pyiga.Gen.DetInv'])
     ctx.obligation('regenerated obligations Pyiga.Gen.DetInv (det = Leibniz expansion, Y*X = 1 = X*Y, copies agree) re-proved',
-                   ok_gen, log[-500:] if not ok_gen else '%d theorems' % len(gen_names))
+                   ok_gen, ' | '.join([l for l in log.split('\n') if l.startswith('error')][:4])[:550] if not ok_gen else '%d theorems' % len(gen_names))
     ctx.require_lean(['Pyiga.Props.C09', 'drv_c09'])
-    ctx.audit(['Pyiga.Props.C09'], THEOREMS, MODULES)
     if ok_gen:
-        ctx.audit(['Pyiga.Gen.DetInv'], gen_names, ['Pyiga.Gen.DetInvDefs', 'Pyiga.Gen.DetInv'])
+        ctx.audit(['Pyiga.Props.C09', 'Pyiga.Gen.DetInv'], THEOREMS + gen_names, MODULES + ['Pyiga.Gen.DetInvDefs', 'Pyiga.Gen.DetInv'])
+    else:
+        ctx.audit(['Pyiga.Props.C09'], THEOREMS, MODULES)
     if ctx.tier == 'thorough':
         ctx.leanchecker(MODULES + (['Pyiga.Gen.DetInv'] if ok_gen else []))
 
@@ -542,7 +543,13 @@ def run(ctx):
                 A = assemble.mass(kvs, geo=geo) if kind == 'mass' else assemble.stiffness(kvs, geo=geo)
             elif path == 'string':
                 with quiet():
-                    A = assemble.assemble('u * v * dx' if kind == 'mass' else 'inner(grad(u), grad(v)) * dx', kvs, geo=geo)
+                    form = 'u * v * dx' if kind == 'mass' else 'inner(grad(u), grad(v)) * dx'
+                    try:
+                        A = assemble.assemble(form, kvs, geo=geo)
+                    except Exception as ex:
+                        if 'Compile' not in type(ex).__name__:
+                            raise
+                        A = assemble.assemble(form, kvs, geo=geo)      # the shared module cache may have been cleaned concurrently: retry once
             elif path == 'vform':
                 A = assemble.assemble(vform.mass_vf(dim) if kind == 'mass' else vform.stiffness_vf(dim), kvs, geo=geo, symmetric=True)
             elif path == 'bsp':
@@ -703,6 +710,7 @@ def run(ctx):
     got = got_all[:len(req)]
     absans = iter(got_all[len(req):])
     ndis = 0
+    seen_keys = set()
     worst_ratio = 0.0
 
     def cmp_vals(impl, model, bound, nterms, scale=F(0)):
@@ -725,10 +733,12 @@ def run(ctx):
     def disagree(r, e, g, m, why):
         nonlocal ndis
         ndis += 1
-        if ndis > 12:
+        key = 'gal-corr:' + m.get('what', m['kind'])
+        if key in seen_keys:          # one search + report per call site
             return
+        seen_keys.add(key)
         found = search(m)
-        ctx.violation('gal-corr:' + m.get('what', m['kind']), 'model and implementation disagree on %s (%s)%s' % (m.get('what', m['kind']), why, (': ' + found) if found else ''),
+        ctx.violation(key, 'model and implementation disagree on %s (%s)%s' % (m.get('what', m['kind']), why, (': ' + found) if found else ''),
                       {'request': r[:1500], 'implementation': str(e)[:1500], 'model': g[:1500], 'case': m.get('case'), 'oracle': found,
                        'stream': 'gal (drv_c09)'}, found is not None)
 
